@@ -165,6 +165,12 @@ def register(reg):
                 # authentication finished first
                 replies = [x for x in c.events("socks.receive_data") if "result" in x.data]
                 out.append(("command_only_after_auth_completed", ("C11",), len(replies) == (2 if len(c.events("socks.msg.SOCKS5UsernamePasswordRequest")) else 1)))
+                # "offers only the configured authentication method ... no HTTP byte is written until it has succeeded":
+                # the proxy must have chosen exactly the offered method (and, with credentials, accepted them)
+                want = USERPASS if has_auth else NO_AUTH
+                chosen = F(c, replies[0].data["result"], "Sm.method") == want if replies else z3.BoolVal(False)
+                accepted = F(c, replies[1].data["result"], "Sm.success") if has_auth and len(replies) == 2 else z3.BoolVal(not has_auth)
+                out.append(("command_only_after_the_offered_method_was_chosen_and_succeeded", ("C11",), z3.And(chosen, accepted)))
             if ev.name == "net.write":
                 dts = c.events("socks.data_to_send")
                 out.append(("writes_exactly_the_encoded_message", ("C11",), ev.data["buffer"].t == dts[-1].data["value"].t if dts else False))
